@@ -45,7 +45,7 @@ struct Gen {
     /// a fixed pair of field types that together mention every parameter (None: any field of `tys` does)
     pair: Option<(&'static str, &'static str)>,
 }
-const GENS: [Gen; 17] = [
+const GENS: [Gen; 18] = [
     Gen { name: "none", decl: "", wh: "", tys: &["i8", "(u8, bool)", "[u8; 2]"], pair: None },
     Gen { name: "T", decl: "<T>", wh: "", tys: &["T", "Option<T>", "Vec<T>", "Box<T>", "::core::marker::PhantomData<T>", "(T, u8)", "fn(T) -> T", "*const T", "[T; 2]", "::core::cell::Cell<T>"], pair: None },
     Gen { name: "T,U", decl: "<T, U>", wh: "", tys: &["(T, U)"], pair: Some(("T", "U")) },
@@ -63,6 +63,7 @@ const GENS: [Gen; 17] = [
     Gen { name: "'a alone", decl: "<'a>", wh: "", tys: &["&'a i8"], pair: None },
     Gen { name: "where qualified Self", decl: "<T>", wh: "where Self: Tr, <Self as Tr>::Assoc: Marker", tys: &["T", "Option<T>"], pair: None },
     // a field type that mentions `Self` next to a parameter (Tag<_> implements every trait / operator form for every argument)
+    Gen { name: "const named like a type", decl: "<const LEN: usize>", wh: "", tys: &["[u8; LEN]"], pair: None },
     Gen { name: "Self in field type", decl: "<T>", wh: "", tys: &["::dxrt::probe::Tag<(T, Self)>", "::dxrt::probe::Tag<(Option<T>, Box<Self>)>"], pair: None },
 ];
 
@@ -268,7 +269,7 @@ fn gen_attrs(ch: &mut Ch, thorough: bool) -> Option<Case> {
 
 /// Debug / Default attribute flavours
 fn gen_misc(ch: &mut Ch, _thorough: bool) -> Option<Case> {
-    let cases: [(&[&str], &str); 34] = [
+    let cases: [(&[&str], &str); 37] = [
         (&["Debug"], "pub struct X<T>(#[debug(ignore)] pub T, pub Option<T>);"),
         (&["Debug"], "pub struct X<T> { #[debug(transparent)] pub a: Vec<T>, pub b: u8 }"),
         (&["Debug"], "pub enum X<'a, T> { A(#[debug(ignore)] &'a T), B { #[debug(transparent)] x: T }, C }"),
@@ -306,6 +307,10 @@ fn gen_misc(ch: &mut Ch, _thorough: bool) -> Option<Case> {
         (&["Eq", "PartialEq", "Hash"], "pub struct X(#[eq(key = ::core::mem::size_of::<Self>() as u64 + $.to_bits())] pub f64, pub u8);"),
         (&["Ord", "PartialOrd", "Eq", "PartialEq", "Hash"], "pub struct X<T>(#[ord(key = (::core::mem::size_of::<Self>(), $.len()))] pub Vec<T>, pub u8);"),
         (&["Eq", "PartialEq"], "pub enum X<T> { A(#[eq(key = ::core::mem::size_of::<Option<Self>>() + $.len())] Vec<T>), B }"),
+        // type-level default values on generic types: a path (through Into) and a string literal (through a user From<&str>)
+        (&["Default"], "#[default(Self::MK)] pub struct X<T>(pub Option<T>); /*extra*/ impl<T> X<T> { pub const MK: Self = X(None); }"),
+        (&["Default", "Clone"], "#[default(\"lit\")] pub struct X<T> { pub a: Vec<T> } /*extra*/ impl<T> ::core::convert::From<&str> for X<T> { fn from(_: &str) -> Self { X { a: Vec::new() } } }"),
+        (&["Default"], "#[default(Self::MK)] pub enum X<T> { A(T), B } /*extra*/ impl<T> X<T> { pub const MK: Self = X::B; }"),
     ];
     let (list, item) = *ch.of(&cases);
     let entry = *ch.of(&Entry::BOTH);
@@ -414,7 +419,7 @@ fn program(c: &Case) -> String {
         Entry::Attr => format!("#[derive_ex({list})]"),
         Entry::Derive => format!("#[derive(Ex)]\n#[derive_ex({list})]"),
     };
-    format!("use derive_ex::{{derive_ex, Ex}};\npub trait Tr {{ type Assoc; fn mk() -> Self; }}\npub trait Marker {{}}\n{head}\n{}\n", c.item)
+    format!("use derive_ex::{{derive_ex, Ex}};\npub trait Tr {{ type Assoc; fn mk() -> Self; }}\npub trait Marker {{}}\n#[allow(non_camel_case_types, dead_code)] pub type LEN = usize;\n{head}\n{}\n", c.item)
 }
 
 pub fn run(ctx: &Ctx, rep: &mut Report) {
@@ -459,7 +464,8 @@ pub fn run(ctx: &Ctx, rep: &mut Report) {
     }
     // E filter: does the expander report an error of its own?
     let own = par_map(&cases, threads(), |_, c| {
-        let r = expand::expand(c.entry, &c.list.join(", "), &c.item).and_then(|ts| expand::parse_output(ts, c.entry == Entry::Attr));
+        // (an item may be followed by further user items after the marker `/*extra*/`)
+        let r = expand::expand(c.entry, &c.list.join(", "), c.item.split("/*extra*/").next().unwrap_or("")).and_then(|ts| expand::parse_output(ts, c.entry == Entry::Attr));
         match r {
             Ok(items) => items.iter().filter_map(|i| if let OutItem::Error(m) = i { Some(m.clone()) } else { None }).next(),
             Err(e) => Some(format!("expansion failed: {e}")),
@@ -493,7 +499,7 @@ pub fn run(ctx: &Ctx, rep: &mut Report) {
             // two twins: the full list, and the list without Default (which the std derive cannot provide for
             // every field type, e.g. fn pointers); lints of both are taken
             for (l, item) in [(c.list.clone(), c.item.clone()), (c.list.iter().filter(|t| *t != "Default").cloned().collect::<Vec<_>>(), c.item.replace("#[default] ", ""))] {
-                twins.push(runner::Case { code: format!("pub trait Tr {{ type Assoc; fn mk() -> Self; }}\npub trait Marker {{}}\n#[derive({})]\n{}\n", l.join(", "), item) });
+                twins.push(runner::Case { code: format!("pub trait Tr {{ type Assoc; fn mk() -> Self; }}\npub trait Marker {{}}\n#[allow(non_camel_case_types, dead_code)] pub type LEN = usize;\n#[derive({})]\n{}\n", l.join(", "), item) });
             }
         }
     }
